@@ -10,8 +10,18 @@ EXTENDS Beatgrid, Json, IOUtils, TLC
 VARIABLE l
 Log == ndJsonDeserialize(IOEnv.TRACE)
 
+Has(r, f) == f \in DOMAIN r
+\* Extreme inputs (beat indices at the edges of the 32-bit range, sample counts up to 2^63 - 1; numbers as strings): whatever
+\* cannot be normalised - here also: because a beat index of the result would not fit - is rejected with invalid_argument;
+\* what is returned is a strictly increasing finite grid from beat -4 to the end.  (No undefined behaviour on the way is
+\* observed by the sanitizer build these records come from.)
+ExtremeOK(r) ==
+    \/ r.out = "throw" /\ r.ex = "invalid_argument"
+    \/ r.out = "ok" /\ r.n >= 2 /\ r.first = -4 /\ r.inc /\ r.finite /\ r.last_ge_end
+
 RecOK(r) ==
-    IF MustReject(r.g, r.sc) THEN
+    IF Has(r, "x") THEN ExtremeOK(r)
+    ELSE IF MustReject(r.g, r.sc) THEN
         r.out = "throw" /\ r.ex = "invalid_argument"
     ELSE IF InDomain(r.g, r.sc) THEN
         /\ r.out = "ok" /\ r.exact
